@@ -201,7 +201,8 @@ def _mk(rng, **f):
            'opts': {'storage': storage, 'geo': geo, 'shanks': shk, 'wmi': wkind, 'styles': styles}}
     reqs = []
     for tid in range(nt):
-        reqs.append({'k': 'get', 'tid': tid, 'chans': None, 'form': None, 'thr': None, 'unw': True})
+        # 'bare': m.get_template(tid) with no keyword at all (the signature's own defaults)
+        reqs.append({'k': 'get', 'tid': tid, 'chans': None, 'form': None, 'thr': None, 'unw': True, 'bare': True})
         extra = f.get('n_extra', 2)
         for _ in range(extra):
             u = rng.random()
@@ -246,7 +247,7 @@ def _corpus():
             'positions': [[0, 0], [0, 20], [0, 40], [0, 60]], 'shanks': [0, 1, 1, 1], 'nclosest': 12, 'thr': [0, 1],
             'tmpl_dtype': 'float32', 'cols_dtype': 'int32', 'st': [0, 1, 0], 'sc': None,
             'opts': {'storage': 'dense', 'geo': 'lin', 'shanks': 'corpus', 'wmi': 'none', 'styles': ['corpus']}}
-    G = lambda tid, **k: dict({'k': 'get', 'tid': tid, 'chans': None, 'form': None, 'thr': None, 'unw': True}, **k)
+    G = lambda tid, **k: dict({'k': 'get', 'tid': tid, 'chans': None, 'form': None, 'thr': None, 'unw': True, 'bare': not k}, **k)
     # dense, channel set restricted by the shank: amplitude was that of other channels
     out.append({'ds': base, 'reqs': [G(0), G(1), G(0, thr=[1, 2]), G(0, unw=False), {'k': 'acc', 'tid': 0},
                                      {'k': 'clu', 'cid': 0}, {'k': 'clu', 'cid': 1}, {'k': 'clu', 'cid': 7}]})
@@ -285,7 +286,16 @@ def _corpus():
     # sparse all-zero template: get_template raises (argmax of an empty sequence) -- the model returns None
     sp3 = dict(sp, templates=[[[0, 0, 0, 0]] * 3, [[1, 1, 1, 1], [0, 2, 0, 0], [0, 0, 0, 0]]], shanks=None)
     out.append({'ds': sp3, 'reqs': [G(0), G(1)]})
-    return [{'kind': 'get', 'inp': copy.deepcopy(c)} for c in out]
+    # two channels tie for the maximal amplitude: np.argmax takes the first of them as best_channel while
+    # np.argsort(...)[::-1] may list the other one first (relational reading of "peak channel first": the first listed
+    # channel has the maximal amplitude; best_channel is listed and maximal) -- dense and sparse, threshold 1 keeps only the tied ones
+    tt = [[[0, 0, 0, 0], [9, 9, 3, 1]], [[0, 0, 0, 0], [3, 9, 1, 9]]]
+    ds = dict(base, ns=2, templates=tt, shanks=None)
+    out.append({'ds': ds, 'reqs': [G(0), G(1), G(0, thr=[1, 1]), G(1, thr=[1, 1]), G(0, unw=False), {'k': 'acc', 'tid': 0},
+                                   {'k': 'acc', 'tid': 1}, {'k': 'clu', 'cid': 0}, {'k': 'clu', 'cid': 1}]})
+    spt = dict(sp, ns=2, templates=tt, cols=[[0, 1, 2, 3], [2, 0, 3, 1]], shanks=None)
+    out.append({'ds': spt, 'reqs': [G(0), G(1), G(0, unw=False), {'k': 'acc', 'tid': 1}, {'k': 'clu', 'cid': 1}]})
+    return[{'kind': 'get', 'inp': copy.deepcopy(c)} for c in out]
 
 
 AXES = [
@@ -334,6 +344,8 @@ def _one(m, rq):
     import numpy as np
     if rq['k'] == 'get':
         kw = {'unwhiten': bool(rq['unw'])}
+        if rq.get('bare') and rq['unw'] and rq['chans'] is None and rq['thr'] is None:
+            kw = {}                                             # the defaults of get_template itself
         if rq['chans'] is not None:
             ch = rq['chans']
             kw['channel_ids'] = (list(ch) if rq['form'] == 'list' else
@@ -441,7 +453,8 @@ def dist(case, obs):
     for rq in case['inp']['reqs']:
         if rq['k'] == 'get':
             out.append('req=get%s%s%s' % ('' if rq['chans'] is None else ':explicit-' + str(rq['form']),
-                                          '' if rq['thr'] is None else ':thr%d/%d' % tuple(rq['thr']), '' if rq['unw'] else ':whitened'))
+                                          '' if rq['thr'] is None else ':thr%d/%d' % tuple(rq['thr']),
+                                          '' if rq['unw'] else ':whitened') + (':no-keywords' if rq.get('bare') else ''))
         else:
             out.append('req=' + rq['k'])
     if obs[0] == 'ok':
